@@ -42,6 +42,11 @@ BAD_D = {
     363109: [101000, 12101, 7004],           # no factor, span otherwise closed
     363110: [7004, 101000, 12101, 7004],
     363111: [12101, 363109],
+    363112: [102002, 102002, 1001, 12101, 1001],   # overlapping replications closed within the sequence (recursed without end)
+    363113: [1001, 363114],                  # a circular pair (the loader reports -2 and keeps the entries)
+    363114: [12101, 363113],
+    363116: [7004, 363116],                  # a sequence naming itself
+    363117: [101002, 363113, 7004],          # reaches the circular pair from inside a replication
 }
 
 FACTOR_SETS = ["2 1 0 3", "0", "1", "3 0 2", "1 2"]
